@@ -33,11 +33,42 @@ present) and their output is judged by an independent reader (gverif.refverify) 
           those three + the look-alike directory, and every other single atom) and gen_fast_manifest on the package directory alone ((1),
           (2)).  The oracle is the one above; nothing is demanded about which non-file lines (DIST, IGNORE,
           TIMESTAMP) of the old Manifest survive — that is only recorded as an outcome class.
+  name    FILE NAMES that look like a Manifest's without being one (family 'name'): ordinary files named
+          LOOKALIKE_NAMES = {Manifest-fix.patch, Manifests.txt, ManifestHelper.eclass, Manifest.txt, Manifest.old,
+          Manifest.gz.bak, Manifest_, Manifest.files, Manifest.files.gz, manifest, MANIFEST, xManifest, old.Manifest,
+          .Manifest (hidden: covered by nothing)} in the 19 kinds of directory NAME_DIRS = {package with ebuild,
+          package without ebuild, files/, files/sub/, category, eclass, eclass/tests, licenses, profiles,
+          profiles/sub, metadata, metadata/{dtd,glsa,news,xml-schema,md5-cache}, metadata/md5-cache/<cat>, repository
+          root, non-category top-level directory} of one repository with every optional component (260 pairs:
+          Manifest.files{,.gz} not in metadata/glsa, metadata/news and the root, where gen_fast_metamanifest writes
+          files of these names itself).  quick — each name in every kind of directory at once (14 repositories, every
+          pair is in one of them) and each kind of directory holding one such file alone, the names taking turns
+          (19); thorough — every pair alone as well (260).  Both entry points, oracle (1)-(4) as above; edit sets
+          <= 1 atom (thorough: <= 2 where every directory holds such a file) from the 13 atoms + {change, delete}
+          the (first) look-alike file.
+  rerun   HISTORIES generate, edit, generate again (family 'rerun', part 'rerun'): the first generation, an edit set,
+          the same entry point once more, then the oracle of that entry point on the result — meta: (1)-(3) on the
+          repository; single: gen_fast_manifest on every eligible directory at or above a changed path (all eligible
+          directories when nothing was edited), bottom-up, the root last, (1), (2) after each run.  Edit atoms: the
+          10 KIND_ATOMS that change which kind of Manifest a directory is due (first package gains an ebuild -
+          its first one where it had none -, loses all its ebuilds, loses all its files; a package directory with /
+          without ebuild appears, the first package directory disappears; a category appears / disappears together
+          with its line in profiles/categories; metadata/md5-cache/<cat> appears / disappears) and the 12 other
+          ATOMS.  Repositories: first package of kind K beside a full one and a second category, every optional
+          component, K in RERUN_KINDS (9: {}, {meta}, {fx}, {meta,fx}, {meta,man}, {e1}, {e1,meta,fx}, all six,
+          {e1,man}), and a full first package without md5-cache directories.  quick — 6 of the kinds (not {fx},
+          {meta,fx}, {e1,man}), no edit or one KIND atom (any one atom for K in {{meta}, {e1,meta,fx}}): 226
+          histories; thorough — K over all 64 subsets, any one atom,
+          for the 9 kinds also every pair holding a KIND atom, and the 14 every-directory repositories of family
+          name with {nothing, change / delete the look-alike file, one KIND atom}: 6692 histories.  The state after
+          the first generation is computed once per repository and entry point and written out afresh (files in
+          sorted order) for every history; replay does the same.
 """
 
 import hashlib
 import itertools
 import os
+import shutil
 import subprocess
 import sys
 
@@ -63,6 +94,19 @@ RULE = ('programs = runs of utils/gen_fast_metamanifest.py (one per repository s
         'full} repository on 1x1 + the 10 quick packages on 2x2, 1998 repositories) x both entry points (whole '
         'repository with edit sets <= 1 of the 3 package-file atoms quick / <= 2 of those + look-alike directory, <= 1 of the other atoms thorough; gen_fast_manifest on the package directory alone); a '
         'stale:T variant is skipped for packages without a file of tag T (it would equal "thick up to date"); '
+        'family name — one ordinary file named like a Manifest (14 names: Manifest-fix.patch, Manifests.txt, '
+        'ManifestHelper.eclass, Manifest.txt, Manifest.old, Manifest.gz.bak, Manifest_, Manifest.files, '
+        'Manifest.files.gz, manifest, MANIFEST, xManifest, old.Manifest, .Manifest) per kind of directory (19 kinds: '
+        'package with / without ebuild, files, files/sub, category, eclass, eclass/tests, licenses, profiles, '
+        'profiles/sub, metadata, its 5 sub-directories, md5-cache/<cat>, root, non-category directory; 260 pairs), '
+        'quick: each name in every directory at once + each directory alone with one name (33 repositories), '
+        'thorough: + every pair alone (274), both entry points, edit sets <= 1 (<= 2) of 15 atoms; family rerun — '
+        'histories generate, edit set, generate again with the same entry point, judged after the second run: 10 '
+        'kind-changing atoms (first package gains an / loses every ebuild, loses every file; package directory '
+        'with / without ebuild appears, first package directory disappears; category appears / disappears; '
+        'md5-cache/<cat> appears / disappears) + the 12 other atoms, quick: <= 1 atom on 7 repositories x 2 entry '
+        'points (226 histories), thorough: 73 + 14 repositories, pairs with a kind-changing atom on 9 of them '
+        '(6692 histories); '
         'disagreement checked = one judged verdict '
         '(generator exit, gemato verify, reference coverage, quiet update, update+verify after an edit set)')
 ASSUMPTIONS = [
@@ -84,6 +128,21 @@ ASSUMPTIONS = [
     '(the statement is silent), only that every file is covered exactly once with right size and BLAKE2B+SHA512, '
     'gemato verify passes and gemato update rewrites nothing; "exactly once" is judged even where the reference '
     'gives no verify verdict for a doubly listed path',
+    'family name: files named exactly Manifest, Manifest.gz, Manifest.bz2, Manifest.xz or Manifest.lzma are never '
+    'added (gemato takes files of these names for Manifests wherever they lie: outside the statement), nor '
+    'Manifest.files / Manifest.files.gz in the three directories gen_fast_metamanifest splits (metadata/glsa, '
+    'metadata/news, root: there the names belong to the generator); every other name is an ordinary file that must '
+    'be covered exactly once unless it is hidden (leading dot: covered by nothing, as everywhere); one look-alike '
+    'file per directory, ordinary content (never a compressed stream or Manifest text)',
+    'family rerun: both runs of a history use the same entry point (a tree written by one script is not handed to '
+    'the other); the second single-directory pass covers exactly the eligible directories at or above a changed '
+    'path, bottom-up, and ends at the repository root, whose verification covers the whole tree; edits keep the '
+    'scope above (a category disappears / appears together with its line in profiles/categories; ebuilds only '
+    'in package directories); the oracle is the one of the entry point applied after the last run, step (3) is '
+    'DONT_CARE when an edit left a category without packages; the order in which a directory lists an old and a new '
+    'Manifest file is the file system\'s for a fixed creation order (files of the first generation are re-created '
+    'in sorted order, the second run adds its own), it is not varied; between the runs nothing but the edit set '
+    'touches the tree (no gemato update in between)',
 ]
 
 UTILS = os.environ.get('GVERIF_C20_UTILS', '/repo/utils')
@@ -209,11 +268,77 @@ def pre_manifest(pkg, files, dist_line, pre):
     return ('\n'.join(sorted(lines)) + '\n').encode()
 
 
+# ------------------------------------------------------------------ files named like a Manifest (family 'name')
+
+# Names gemato treats as Manifest files wherever they lie (outside the statement, never generated here) ...
+RESERVED_NAMES = ('Manifest', 'Manifest.gz', 'Manifest.bz2', 'Manifest.xz', 'Manifest.lzma')
+# ... and the two names gen_fast_metamanifest itself writes into the directories it splits
+SPLIT_NAMES = ('Manifest.files', 'Manifest.files.gz')
+SPLIT_KINDS = ('metadata/glsa', 'metadata/news', 'top')
+# ordinary files whose names merely look like a Manifest's (prefix, suffix, other case, hidden)
+LOOKALIKE_NAMES = ('Manifest-fix.patch', 'Manifests.txt', 'ManifestHelper.eclass', 'Manifest.txt', 'Manifest.old',
+                   'Manifest.gz.bak', 'Manifest_', 'Manifest.files', 'Manifest.files.gz', 'manifest', 'MANIFEST',
+                   'xManifest', 'old.Manifest', '.Manifest')
+# every kind of directory of the repository the names family is built on (NAME_CATS x NAME_REPO)
+NAME_DIRS = ('pkg', 'barepkg', 'files', 'files/sub', 'cat', 'eclass', 'eclass/tests', 'licenses', 'profiles',
+             'profiles/sub', 'metadata', 'metadata/dtd', 'metadata/glsa', 'metadata/news', 'metadata/xml-schema',
+             'metadata/md5-cache', 'md5-cache/cat', 'top', 'nd')
+NAME_CATS = [[('e1', 'meta', 'fx', 'fy'), ('meta',)]]       # a package with ebuild, files/ and files/sub; a bare one
+NAME_REPO = repogen.C20_BASE + tuple(x for x in repogen.C20_OPT if x != 'nd2')
+
+
+def name_allowed(kind, name):
+    return name not in RESERVED_NAMES and not (name in SPLIT_NAMES and kind in SPLIT_KINDS)
+
+
+def extra_dir(sh, seed, kind):
+    """Relative directory of a NAME_DIRS kind in this repository."""
+    pk = repogen.packages(sh, seed)
+    cat, pkg = pk[0][0], pk[0][1]
+    if kind in ('pkg', 'files', 'files/sub'):
+        return f'{cat}/{pkg}' + ('' if kind == 'pkg' else '/' + kind)
+    if kind == 'barepkg':
+        return f'{pk[1][0]}/{pk[1][1]}'
+    if kind == 'cat':
+        return cat
+    if kind == 'md5-cache/cat':
+        return f'metadata/md5-cache/{cat}'
+    if kind == 'top':
+        return ''
+    if kind == 'nd':
+        return repogen.names(seed)[2]
+    return kind
+
+
+def extra_paths(sh, seed, extra):
+    return [os.path.join(extra_dir(sh, seed, kind), name) for kind, name in extra or ()]
+
+
+def name_shapes(tier):
+    """-> list of ('name', shape, None, extra); extra = ((directory kind, file name), ...).
+    quick: every name in every kind of directory at once (one repository per name: every (kind, name) pair is in
+    some repository) and every kind of directory holding a look-alike alone (the names taking turns);
+    thorough: additionally every (kind, name) pair alone."""
+    sh = repogen.shape(NAME_CATS, NAME_REPO)
+    out = []
+    for name in LOOKALIKE_NAMES:
+        out.append(tuple((k, name) for k in NAME_DIRS if name_allowed(k, name)))
+    for i, k in enumerate(NAME_DIRS):
+        names = [n for n in LOOKALIKE_NAMES if name_allowed(k, n)]
+        for n in (names if tier != 'quick' else [names[i % len(names)]]):
+            out.append(((k, n),))
+    return [('name', sh, None, extra) for extra in out]
+
+
 def build_tree(case):
     """The repository of a case: repogen's tree, with the pre-existing Manifest of every package that has the
-    'man' component replaced by the case's variant (case['pre']; None = leave repogen's DIST-only one)."""
+    'man' component replaced by the case's variant (case['pre']; None = leave repogen's DIST-only one) and with
+    the case's extra files named like a Manifest (case['extra'] = [[directory kind, name], ...])."""
     sh, seed, pre = case['shape'], case['seed'], case.get('pre')
     tree = repogen.build(sh, seed, require_dirs=True)
+    for (kind, name), p in zip(case.get('extra') or (), extra_paths(sh, seed, case.get('extra'))):
+        assert name_allowed(kind, name) and p not in tree.files and os.path.dirname(p) in tree.all_dirs() | {''}, p
+        tree.files[p] = f'named like a Manifest: {kind} {name} #{seed}\n'.encode()
     if pre is None:
         return tree
     for cat, pkg, comps in repogen.packages(sh, seed):
@@ -281,13 +406,13 @@ def edit_sets(maxn, atoms=None):
     for n in range(1, maxn + 1):
         for c in itertools.combinations(ATOMS if atoms is None else atoms, n):
             # change and delete of the same target in one set is just a delete
-            if any((('change', p) in c and ('delete', p) in c) for p in PLACES):
+            if any((('change', p) in c and ('delete', p) in c) for p in PLACES + ('extra',)):
                 continue
             out.append(c)
     return out
 
 
-def targets(sh, seed):
+def targets(sh, seed, extra=None):
     pk = repogen.packages(sh, seed)
     t = {'eclass': ('eclass/e.eclass', 'eclass/added.eclass'),
          'glsa': ('metadata/glsa/g', 'metadata/glsa/g-added'),
@@ -296,12 +421,14 @@ def targets(sh, seed):
         cat, pkg, _c = pk[0]
         t['pkg'] = (f'{cat}/{pkg}', f'{cat}/{pkg}/{pkg}-9.ebuild')
         t['lookalike'] = (f'{cat}/{pkg}', f'{cat}/{pkg}-extra/README')
+    if extra:
+        t['extra'] = (extra_paths(sh, seed, extra)[0], None)      # the first file named like a Manifest
     return t
 
 
-def apply_edits(root, sh, seed, edits):
+def apply_edits(root, sh, seed, edits, extra=None):
     """-> False when some atom has no target in this shape."""
-    t = targets(sh, seed)
+    t = targets(sh, seed, extra)
     for kind, place in edits:
         if place not in t:
             return False
@@ -315,6 +442,8 @@ def apply_edits(root, sh, seed, edits):
         else:
             existing = os.path.join(root, existing)
         if kind == 'add':
+            if new is None:
+                return False
             os.makedirs(os.path.dirname(os.path.join(root, new)), exist_ok=True)
             with open(os.path.join(root, new), 'wb') as f:
                 f.write(b'added by edit\n')
@@ -329,15 +458,164 @@ def apply_edits(root, sh, seed, edits):
     return True
 
 
+# ------------------------------------------------------------------ edits between two generator runs (family 'rerun')
+
+# Edits that change WHICH KIND of Manifest a directory gets from the scripts (plain 'Manifest' for a directory
+# holding ebuilds, 'Manifest.gz' otherwise, none for a directory that is not one of the scripts' own) - beside
+# ('add', 'pkg') of ATOMS, which gives the first package an(other) ebuild:
+#   lose_ebuilds pkg   every ebuild of the first package is deleted
+#   empty pkg          every file of the first package is deleted (the directory and the Manifest written there stay)
+#   add newpkg|barepkg a new package directory (ebuild + metadata.xml | metadata.xml only) in the first category
+#   delete pkgdir      the first package directory is removed altogether
+#   add cat            a new category: line in profiles/categories, one package (and its md5-cache directory when
+#                      the repository has md5-cache directories)
+#   delete cat         the last category: line, directory and md5-cache directory removed
+#   add|delete cachedir  metadata/md5-cache/<first category> appears / is removed altogether
+KIND_ATOMS = [('add', 'pkg'), ('lose_ebuilds', 'pkg'), ('empty', 'pkg'), ('add', 'newpkg'), ('add', 'barepkg'),
+              ('delete', 'pkgdir'), ('add', 'cat'), ('delete', 'cat'), ('add', 'cachedir'), ('delete', 'cachedir')]
+EXTRA_ATOMS = [('change', 'extra'), ('delete', 'extra')]
+RERUN_ATOMS = KIND_ATOMS + [a for a in ATOMS if a not in KIND_ATOMS]
+
+
+def read_categories(root):
+    with open(os.path.join(root, 'profiles/categories')) as f:
+        return [x.strip() for x in f if x.strip()]
+
+
+def _put(root, rel, data):
+    os.makedirs(os.path.dirname(os.path.join(root, rel)), exist_ok=True)
+    with open(os.path.join(root, rel), 'wb') as f:
+        f.write(data)
+
+
+def apply_rerun_edits(root, sh, seed, edits, extra=None):
+    """Apply atoms of RERUN_ATOMS + EXTRA_ATOMS in the given order -> False when one has no target."""
+    pk = repogen.packages(sh, seed)
+    for atom in edits:
+        kind, place = atom
+        if atom not in KIND_ATOMS or atom == ('add', 'pkg'):
+            if not apply_edits(root, sh, seed, [atom], extra):
+                return False
+            continue
+        cats = read_categories(root)
+        if place in ('pkg', 'pkgdir'):
+            if not pk:
+                return False
+            pd = os.path.join(root, pk[0][0], pk[0][1])
+            if not os.path.isdir(pd):
+                return False
+            if place == 'pkgdir':
+                shutil.rmtree(pd)
+            elif kind == 'lose_ebuilds':
+                ebuilds = [n for n in sorted(os.listdir(pd)) if n.endswith('.ebuild')]
+                if not ebuilds:
+                    return False
+                for n in ebuilds:
+                    os.unlink(os.path.join(pd, n))
+            else:       # empty
+                victims = [n for n in sorted(os.listdir(pd)) if n not in ('Manifest', 'Manifest.gz')]
+                if not victims:
+                    return False
+                for n in victims:
+                    p = os.path.join(pd, n)
+                    shutil.rmtree(p) if os.path.isdir(p) else os.unlink(p)
+        elif place in ('newpkg', 'barepkg'):
+            if not cats or not os.path.isdir(os.path.join(root, cats[0])):
+                return False
+            name = 'added-pkg' if place == 'newpkg' else 'added-bare'
+            if place == 'newpkg':
+                _put(root, f'{cats[0]}/{name}/{name}-1.ebuild', b'added ebuild\n')
+            _put(root, f'{cats[0]}/{name}/metadata.xml', b'<pkgmetadata added/>\n')
+        elif place == 'cat' and kind == 'add':
+            with open(os.path.join(root, 'profiles/categories'), 'ab') as f:
+                f.write(b'new-cat\n')
+            _put(root, 'new-cat/np/np-1.ebuild', b'new category ebuild\n')
+            _put(root, 'new-cat/np/metadata.xml', b'<pkgmetadata new/>\n')
+            cache = os.path.join(root, 'metadata/md5-cache')
+            if any(os.path.isdir(os.path.join(cache, n)) for n in os.listdir(cache)):
+                _put(root, 'metadata/md5-cache/new-cat/np-1', b'new cache\n')
+        elif place == 'cat':
+            if not cats:
+                return False
+            with open(os.path.join(root, 'profiles/categories'), 'wb') as f:
+                f.write(''.join(c + '\n' for c in cats[:-1]).encode())
+            for d in (cats[-1], 'metadata/md5-cache/' + cats[-1]):
+                shutil.rmtree(os.path.join(root, d), ignore_errors=True)
+        elif place == 'cachedir':
+            if not cats:
+                return False
+            cd = os.path.join(root, 'metadata/md5-cache', cats[0])
+            if kind == 'add':
+                if os.path.isdir(cd):
+                    return False
+                _put(root, f'metadata/md5-cache/{cats[0]}/added-1', b'added cache\n')
+            else:
+                if not os.path.isdir(cd):
+                    return False
+                shutil.rmtree(cd)
+        else:
+            raise AssertionError(atom)
+    return True
+
+
+def rerun_sets(tier, plain, pairs):
+    """Edit sets between the two generator runs.  quick: nothing, or one atom (a kind-changing one; ``plain``: any of
+    RERUN_ATOMS); thorough: any one atom and, with ``pairs``, every pair of atoms with at least one kind-changing
+    atom."""
+    atoms = RERUN_ATOMS if (plain or tier != 'quick') else KIND_ATOMS
+    out = [()] + [(a,) for a in atoms]
+    if tier != 'quick' and pairs:
+        for c in itertools.combinations(RERUN_ATOMS, 2):
+            if not any(a in KIND_ATOMS for a in c):
+                continue
+            if any((('change', p) in c and ('delete', p) in c) for p in PLACES):
+                continue
+            out.append(c)
+    return out
+
+
+RERUN_KINDS = [(), ('meta',), ('fx',), ('meta', 'fx'), ('man', 'meta'), ('e1',), ('e1', 'meta', 'fx'),
+               ('e1', 'e2', 'meta', 'fx', 'fy', 'man'), ('e1', 'man')]
+RERUN_PLAIN = [('meta',), ('e1', 'meta', 'fx')]       # quick: the first packages that also get the non-kind atoms
+RERUN_KINDS_QUICK = [k for k in RERUN_KINDS if k not in (('fx',), ('meta', 'fx'), ('e1', 'man'))]
+
+
+def rerun_shapes(tier):
+    """-> list of ('rerun', shape, None, None): first package of a kind, a full one beside it and a second
+    category; repository with every optional component (nd2 apart), and once without md5-cache directories."""
+    full = NAME_REPO
+    kinds = RERUN_KINDS_QUICK if tier == 'quick' else list(repogen.powerset(repogen.PKG))
+    out = [('rerun', repogen.shape([[k, repogen.PKG_FULL], [repogen.PKG_FULL]], full), None, None) for k in kinds]
+    for k in ([repogen.PKG_FULL] if tier == 'quick' else RERUN_KINDS):
+        out.append(('rerun', repogen.shape([[k, repogen.PKG_FULL], [repogen.PKG_FULL]],
+                                           tuple(x for x in full if x != 'md5cache')), None, None))
+    if tier != 'quick':
+        # the files named like a Manifest meet the second run too (every kind of directory at once)
+        out += [('rerun', sh, None, extra) for _f, sh, _p, extra in name_shapes(tier) if len(extra) > 1]
+    return out
+
+
 # ------------------------------------------------------------------ parts
 
 def _v(out, case, check, msg, **extra):
     sig = {'check': check, 'part': case['part']}
     if case.get('pre') is not None:
         sig['pre'] = case['pre'].split(':')[0]          # variant class; the exact variant is in the message
+    if case.get('extra'):
+        sig['family'] = 'file_named_like_a_Manifest'    # which names in which directories: in the message
+    if case['part'] == 'rerun':
+        sig['entry'] = case['entry']
+        # what the edits between the runs did to the first package (the atoms themselves: in the message)
+        sig['first_package'] = case.get('transition')
     sig.update(extra)
+    more = ''
+    if case.get('extra'):
+        more += f', files named like a Manifest={extra_paths(case["shape"], case["seed"], case["extra"])}'
+    if case['part'] == 'rerun':
+        more += f', history={case["entry"]}: generate, {case["redits"] or "no edit"}, generate again'
     out.append({'sig': sig, 'case': case, 'message': f'{check} [{case["part"]}] {msg} (shape={case["shape"]}, '
-                f'pre-existing package Manifest={case.get("pre") or "as in shape"}, edits={case.get("edits")})'})
+                f'pre-existing package Manifest={case.get("pre") or "as in shape"}, edits={case.get("edits")}'
+                f'{more})'})
 
 
 def tree_of(root):
@@ -365,16 +643,17 @@ def generate_meta(case, scratch, stats, out):
     return root
 
 
-def check_generated(case, root, stats, out):
+def check_generated(case, root, stats, out, why=None, lab='meta'):
     """(1), (2), (3) on a generated repository; -> the generated tree (as it was before step (3))
-    when (1) and (2) hold, else None."""
+    when (1) and (2) hold, else None.  ``why``: reasons that put step (3) outside the statement (default: those
+    of the shape); ``lab``: prefix of the outcome classes."""
     ok = True
     r = gem.cli(['verify', root])
     if stats is not None:
         stats.evaluations += 1
         stats.transitions += 1
         stats.compared += 1
-        stats.outcomes[f'meta/verify_exit_{r["exit"]}'] += 1
+        stats.outcomes[f'{lab}/verify_exit_{r["exit"]}'] += 1
     if r['exit'] != 0:
         ok = False
         _v(out, case, 'gemato_verify_fails', f'{gem.brief(r)} exit={r["exit"]} log={r["log"][-2:]}',
@@ -405,11 +684,12 @@ def check_generated(case, root, stats, out):
     s2 = snapshot(root)
     changed = sorted(p for p in set(s1) | set(s2) if s1.get(p) != s2.get(p))
     quiet = not events and not changed
-    why = special(case['shape'])
+    if why is None:
+        why = special(case['shape'])
     if stats is not None:
         stats.evaluations += 1
         stats.transitions += 1
-        stats.outcomes[f'meta/untouched_update/exit_{r["exit"]}/{"quiet" if quiet else "rewrote"}'
+        stats.outcomes[f'{lab}/untouched_update/exit_{r["exit"]}/{"quiet" if quiet else "rewrote"}'
                        f'{"/dontcare" if why else ""}'] += 1
     if why:
         if stats is not None:
@@ -432,7 +712,7 @@ def check_edit(case, gen_tree, scratch, stats, out):
     root = fresh_root(scratch, 'e')
     gen_tree.write(root)
     edits = [tuple(e) for e in case['edits']]
-    if not apply_edits(root, case['shape'], case['seed'], edits):
+    if not apply_edits(root, case['shape'], case['seed'], edits, case.get('extra')):
         if stats is not None:
             stats.dontcare['(4) an edit atom has no target in this shape'] += 1
         return None
@@ -476,9 +756,11 @@ def check_edit(case, gen_tree, scratch, stats, out):
     return label == 'ok'
 
 
-def single_dirs(sh, seed, root):
-    """Eligible directories in generation order (mirrors the documented use of the script)."""
-    cats = repogen.categories(sh, seed)
+def single_dirs(sh, seed, root, cats=None):
+    """Eligible directories in generation order (mirrors the documented use of the script); categories as in
+    the shape, or the given ones (family rerun: as listed in profiles/categories after the edits)."""
+    if cats is None:
+        cats = repogen.categories(sh, seed)
     lv1, lv2 = [], []
     for c in cats:
         cd = os.path.join(root, c)
@@ -496,17 +778,11 @@ def single_dirs(sh, seed, root):
     return lv1 + lv2 + [('metadata', 'metadata'), ('', 'root')]
 
 
-def check_single(case, scratch, stats=None):
-    out = []
-    sh, seed = case['shape'], case['seed']
-    root = fresh_root(scratch)
-    build_tree(case).write(root)
+def single_pass(case, root, todo, stats, out, judge=True, lab='single'):
+    """gen_fast_manifest on the directories ``todo`` [(relative dir, class)] in that order; with ``judge`` every
+    directory is verified as a top-level tree right after its run ((1), (2)).  -> True when nothing was wrong."""
     all_ok = True
     ts_reported = False
-    todo = single_dirs(sh, seed, root)
-    if case.get('dirs') == 'packages':
-        # the 'pre' family: the pre-existing Manifest only matters to the run on the package directory itself
-        todo = [(d, klass) for d, klass in todo if klass == 'package']
     for d, klass in todo:
         full = os.path.join(root, d) if d else root
         rc, err = run_script('gen_fast_manifest.py', full)
@@ -516,12 +792,14 @@ def check_single(case, scratch, stats=None):
             stats.compared += 1
             stats.counters['programs'] += 1
             stats.counters['programs/gen_fast_manifest'] += 1
-            stats.counters['single_dir/' + klass.split('/')[-1]] += 1
+            stats.counters[f'{lab}_dir/' + klass.split('/')[-1]] += 1
         if rc != 0:
             all_ok = False
             _v(out, case, 'generator_failed', f'gen_fast_manifest.py {d!r} exit {rc}: {err[-200:]}', script='manifest',
                dirclass=klass)
             break
+        if not judge:
+            continue
         names = top_name(full)
         if len(names) != 1:
             all_ok = False
@@ -535,7 +813,7 @@ def check_single(case, scratch, stats=None):
             stats.evaluations += 1
             stats.transitions += 2
             stats.compared += 1
-            stats.outcomes[f'single/{top}/{gem.brief(fv)}'] += 1
+            stats.outcomes[f'{lab}/{top}/{gem.brief(fv)}'] += 1
             if case.get('pre') is not None and klass == 'package':
                 stats.counters['pre/single_package_runs'] += 1
                 stats.outcomes[f'pre/single/{carried(full, "")}'] += 1
@@ -568,7 +846,118 @@ def check_single(case, scratch, stats=None):
             _v(out, case, check, f'{d!r} ({top}): {msg}', dirclass=klass, **extra)
         if not (fv_ok and not bad):
             break
+    return all_ok
+
+
+def check_single(case, scratch, stats=None):
+    out = []
+    sh, seed = case['shape'], case['seed']
+    root = fresh_root(scratch)
+    build_tree(case).write(root)
+    todo = single_dirs(sh, seed, root)
+    if case.get('dirs') == 'packages':
+        # the 'pre' family: the pre-existing Manifest only matters to the run on the package directory itself
+        todo = [(d, klass) for d, klass in todo if klass == 'package']
+    all_ok = single_pass(case, root, todo, stats, out)
     return out, all_ok
+
+
+# ------------------------------------------------------------------ generate, edit, generate again (family 'rerun')
+
+def sorted_tree_of(root):
+    """The tree on disk with its files in sorted order (Tree.write then creates them in that order, whatever the
+    order the first generator run made them in)."""
+    snap = snapshot(root)
+    return Tree({p: snap[p][1] for p in sorted(snap) if snap[p][0] == 'f'},
+                dirs={p for p, v in snap.items() if v[0] == 'd'})
+
+
+def first_generation(case, scratch, stats, out):
+    """The state after the first generator run of a history (no edit yet) -> Tree or None.  meta: one run of
+    gen_fast_metamanifest; single: gen_fast_manifest on every eligible directory, bottom-up."""
+    sh, seed = case['shape'], case['seed']
+    if case['entry'] == 'meta':
+        root = generate_meta(case, scratch, stats, out)
+        if root is None:
+            return None
+    else:
+        root = fresh_root(scratch)
+        build_tree(case).write(root)
+        if not single_pass(case, root, single_dirs(sh, seed, root), stats, out, judge=False, lab='rerun/single1'):
+            return None
+    return sorted_tree_of(root)
+
+
+def special_on_disk(root, sh):
+    """special() for a repository whose categories and packages were edited."""
+    out = [w for w in special(sh) if not w.startswith('category without packages')]
+    for c in read_categories(root):
+        cd = os.path.join(root, c)
+        if os.path.isdir(cd) and not any(os.path.isdir(os.path.join(cd, n)) for n in os.listdir(cd)):
+            out.append('category without packages (generator writes an empty Manifest)')
+            break
+    return out
+
+
+def pkg_state(snap, pd):
+    """What the property lets the first package directory expect from the scripts: 'absent' (no Manifest),
+    'ebuild' (plain Manifest), 'noebuild' (Manifest.gz)."""
+    if snap.get(pd, (None,))[0] != 'd':
+        return 'absent'
+    own = [p for p in snap if p.startswith(pd + '/') and '/' not in p[len(pd) + 1:] and snap[p][0] == 'f']
+    return 'ebuild' if any(p.endswith('.ebuild') for p in own) else 'noebuild'
+
+
+def check_rerun(case, scratch, stats, out, gen1=None):
+    """One history: first generation (``gen1``: its cached result), the edits case['redits'], the same entry point
+    again, then the oracle of the entry point: meta (1)-(3) on the repository; single (1), (2) on every directory
+    the second pass ran in (the eligible directories at or above a changed path - all of them when nothing was
+    edited - the repository root last, which verifies the whole tree).  -> True / False / None (no target)."""
+    sh, seed, entry = case['shape'], case['seed'], case['entry']
+    redits = [tuple(e) for e in case['redits']]
+    if gen1 is None:
+        gen1 = first_generation(case, scratch, stats, out)
+        if gen1 is None:
+            return False
+    root = fresh_root(scratch, 'e')
+    gen1.write(root)
+    s1 = snapshot(root)
+    if not apply_rerun_edits(root, sh, seed, redits, case.get('extra')):
+        if stats is not None:
+            stats.dontcare['rerun: an edit atom has no target in this repository'] += 1
+        return None
+    s2 = snapshot(root)
+    touched = [p for p in set(s1) | set(s2) if s1.get(p) != s2.get(p)]
+    pk = repogen.packages(sh, seed)
+    pd = f'{pk[0][0]}/{pk[0][1]}'
+    case = dict(case, transition=f'{pkg_state(s1, pd)}->{pkg_state(s2, pd)}')
+    if stats is not None:
+        for e in redits:
+            stats.counters[f'rerun/{entry}/atom/{e[0]}_{e[1]}'] += 1
+        stats.counters[f'rerun/{entry}/sets/size{len(redits)}'] += 1
+        stats.counters[f'rerun/{entry}/first_package/{case["transition"]}'] += 1
+        stats.counters[f'rerun/{entry}/histories'] += 1
+    n0 = len(out)
+    if entry == 'meta':
+        rc, err = run_script('gen_fast_metamanifest.py', root)
+        if stats is not None:
+            stats.evaluations += 1
+            stats.transitions += 1
+            stats.compared += 1
+            stats.counters['programs'] += 1
+            stats.counters['programs/gen_fast_metamanifest'] += 1
+            stats.outcomes[f'rerun/meta/generator_exit_{rc}'] += 1
+        if rc != 0:
+            _v(out, case, 'generator_failed', f'gen_fast_metamanifest.py (second run) exit {rc}: {err[-200:]}',
+               script='metamanifest')
+            return False
+        ok = check_generated(case, root, stats, out, why=special_on_disk(root, sh), lab='rerun/meta') is not None
+        return ok and len(out) == n0
+    todo = single_dirs(sh, seed, root, read_categories(root))
+    if redits:
+        todo = [(d, k) for d, k in todo if d == '' or any(refverify.comp_prefix(p, d) for p in touched)]
+    ok = single_pass(case, root, todo, stats, out, lab='rerun/single')
+    return ok and len(out) == n0
 
 
 def replay(case, scratch):
@@ -576,6 +965,9 @@ def replay(case, scratch):
     if case['part'] == 'single':
         return check_single(case, scratch)[0]
     out = []
+    if case['part'] == 'rerun':
+        check_rerun(case, scratch, None, out)
+        return out
     root = generate_meta(case, scratch, None, out)
     if root is None:
         return out
@@ -597,11 +989,30 @@ def shards(tier, seed):
 
 
 def all_cases(tier):
-    """-> [(family, shape, pre-existing-Manifest variant or None)]"""
-    return [(fam, sh, None) for fam, sh in repogen.shapes_c20(tier)] + pre_shapes(tier)
+    """-> [(family, shape, pre-existing-Manifest variant or None, extra files named like a Manifest or None,
+    entry point of a rerun history or None)].  New families are appended: the stride sharding keeps the older
+    cases where they were."""
+    out = [(fam, sh, None, None, None) for fam, sh in repogen.shapes_c20(tier)]
+    out += [(fam, sh, pre, None, None) for fam, sh, pre in pre_shapes(tier)]
+    out += [(fam, sh, None, extra, None) for fam, sh, _p, extra in name_shapes(tier)]
+    for fam, sh, _p, extra in rerun_shapes(tier):
+        out += [(fam, sh, None, extra, entry) for entry in ('meta', 'single')]
+    return out
 
 
-def case_edit_sets(tier, fam, sh):
+def case_rerun_sets(tier, sh, extra):
+    if extra:
+        return [()] + [(a,) for a in EXTRA_ATOMS + KIND_ATOMS]
+    first = tuple(sh['cats'][0][0])
+    return rerun_sets(tier, plain=first in [tuple(sorted(k)) for k in RERUN_PLAIN],
+                      pairs=first in [tuple(sorted(k)) for k in RERUN_KINDS] and 'md5cache' in sh['repo'])
+
+
+def case_edit_sets(tier, fam, sh, extra=None):
+    if fam == 'name':
+        # every single atom, those aimed at the (first) file named like a Manifest included; thorough: pairs too
+        # where every kind of directory holds such a file
+        return edit_sets(1 if tier == 'quick' or len(extra) == 1 else 2, ATOMS + EXTRA_ATOMS)
     if fam != 'pre':
         return edit_sets(max_edits(tier, fam, sh))
     # family pre: the edits inside / next to the package whose Manifest pre-existed (quick: one of them; thorough:
@@ -627,9 +1038,18 @@ def run_shard(spec, tier, seed, scratch):
     stats = Stats()
     allshapes = all_cases(tier)
     for idx in range(i, len(allshapes), n):
-        fam, sh, pre = allshapes[idx]
+        fam, sh, pre, extra, entry = allshapes[idx]
+        if fam == 'rerun':
+            run_rerun_case(sh, extra, entry, tier, seed, scratch, stats)
+            continue
         stats.counters['repositories'] += 1
         stats.counters['repositories/' + fam] += 1
+        for kind, name in extra or ():
+            stats.counters['name/dir/' + kind] += 1
+            stats.counters['name/name/' + name] += 1
+            stats.counters[f'name/pair/{kind}|{name}'] += 1
+        if extra:
+            stats.counters['name/' + ('alone' if len(extra) == 1 else 'every_directory')] += 1
         if pre is not None:
             stats.counters['pre/' + pre] += 1
         if set(sh['repo']) >= set(repogen.C20_BASE + repogen.C20_OPT) and \
@@ -645,12 +1065,17 @@ def run_shard(spec, tier, seed, scratch):
         if pre is not None:
             case['pre'] = pre
             ckey = (ckey, pre)
+        if extra:
+            case['extra'] = [list(x) for x in extra]
+            ckey = (ckey, 'extra', tuple(extra))
         out = []
         root = generate_meta(case, scratch, stats, out)
         gen_tree = check_generated(case, root, stats, out) if root is not None else None
         stats.case(('meta', ckey), nontrivial=gen_tree is not None)
         if gen_tree is not None:
-            for edits in case_edit_sets(tier, fam, sh):
+            if extra:
+                stats.counters['name/generated_tree_sound'] += 1
+            for edits in case_edit_sets(tier, fam, sh, extra):
                 if not edits:
                     continue
                 ecase = dict(case, edits=[list(e) for e in edits])
@@ -665,11 +1090,34 @@ def run_shard(spec, tier, seed, scratch):
         scase = {'part': 'single', 'shape': sh, 'seed': seed}
         if pre is not None:
             scase.update(pre=pre, dirs='packages')
+        if extra:
+            scase['extra'] = [list(x) for x in extra]
         vs, ok = check_single(scase, scratch, stats)
         stats.case(('single', ckey), nontrivial=ok)
         for x in vs:
             stats.violation(x['sig'], x['case'], x['message'])
     return stats
+
+
+def run_rerun_case(sh, extra, entry, tier, seed, scratch, stats):
+    """Every history generate, edit set, generate again of one repository and one entry point."""
+    stats.counters['rerun/repositories'] += 1
+    base = {'part': 'rerun', 'entry': entry, 'shape': sh, 'seed': seed, 'redits': []}
+    ckey = repogen.key(sh)
+    if extra:
+        base['extra'] = [list(x) for x in extra]
+        ckey = (ckey, 'extra', tuple(extra))
+    out = []
+    gen1 = first_generation(base, scratch, stats, out)
+    if gen1 is None:
+        stats.case(('rerun', entry, ckey), nontrivial=False)
+    else:
+        for redits in case_rerun_sets(tier, sh, extra):
+            case = dict(base, redits=[list(e) for e in redits])
+            ok = check_rerun(case, scratch, stats, out, gen1)
+            stats.case(('rerun', entry, ckey, redits), nontrivial=bool(ok))
+    for x in out:
+        stats.violation(x['sig'], x['case'], x['message'])
 
 
 def finish(total, tier):
@@ -715,9 +1163,44 @@ def finish(total, tier):
     for k in ('package', 'category', 'cat', 'md5-cache', 'metadata', 'root', 'glsa', 'eclass'):
         if c.get('single_dir/' + k, 0) < 1:
             errs.append(f'vacuity: gen_fast_manifest never run on a directory of class {k}')
+    # files named like a Manifest: every (kind of directory, name) pair was in some repository, every kind of
+    # directory held such a file alone, every name was in every kind of directory at once
+    pairs = {(k, n) for k in NAME_DIRS for n in LOOKALIKE_NAMES if name_allowed(k, n)}
+    seen = {tuple(x[len('name/pair/'):].split('|')) for x in c if x.startswith('name/pair/')}
+    if seen != pairs:
+        errs.append(f'vacuity: (directory, Manifest-like name) pairs never generated: {sorted(pairs - seen)[:5]}')
+    if len(pairs) < 250 or any(n in RESERVED_NAMES for _k, n in pairs):
+        errs.append('vacuity: alphabet of Manifest-like names')
+    if c.get('name/every_directory', 0) < len(LOOKALIKE_NAMES):
+        errs.append('vacuity: a Manifest-like name was not put into every kind of directory at once')
+    alone = len(pairs) if tier != 'quick' else len(NAME_DIRS)
+    if c.get('name/alone', 0) < alone:
+        errs.append(f'vacuity: only {c.get("name/alone", 0)} repositories with a single Manifest-like file')
+    # generate, edit, generate again
+    for entry in ('meta', 'single'):
+        pre = f'rerun/{entry}/'
+        for a in KIND_ATOMS:
+            if c.get(f'{pre}atom/{a[0]}_{a[1]}', 0) < 1:
+                errs.append(f'vacuity: rerun [{entry}]: edit atom {a} never applied between two runs')
+        for k in ('noebuild->ebuild', 'ebuild->noebuild', 'ebuild->ebuild', 'noebuild->noebuild'):
+            if c.get(f'{pre}first_package/{k}', 0) < 1:
+                errs.append(f'vacuity: rerun [{entry}]: no history takes the first package {k}')
+        if not any(k.startswith(pre + 'first_package/') and k.endswith('->absent') for k in c):
+            errs.append(f'vacuity: rerun [{entry}]: no history removes the first package')
+        for n in range(2 if tier == 'quick' else 3):
+            if c.get(f'{pre}sets/size{n}', 0) < 1:
+                errs.append(f'vacuity: rerun [{entry}]: no edit set of size {n}')
+        if c.get(pre + 'histories', 0) < 100:
+            errs.append(f'vacuity: rerun [{entry}]: only {c.get(pre + "histories", 0)} histories')
+    if not any(k.startswith('rerun/single/Manifest.gz/') for k in total.outcomes) or \
+            not any(k.startswith('rerun/single/Manifest/') for k in total.outcomes):
+        errs.append('vacuity: second single-directory passes did not judge both plain and compressed Manifests')
+    if not any(k.startswith('rerun/meta/verify_exit_') for k in total.outcomes):
+        errs.append('vacuity: no second gen_fast_metamanifest run was judged')
     return errs
 
 
 def extra_evidence(total, tier):
     return {'space': {k: v for k, v in sorted(total.counters.items())
-                      if k.startswith(('repositories', 'programs', 'edit_sets', 'single_dir', 'pre/'))}}
+                      if k.startswith(('repositories', 'programs', 'edit_sets', 'single_dir', 'pre/', 'name/', 'rerun/'))
+                      and not k.startswith('name/pair/')}}
